@@ -85,6 +85,7 @@ type Stats struct {
 	MaxPC           int
 	Concretized     int
 	ExcludedByKnown int
+	ByTruthTable    int
 }
 
 type decision struct {
@@ -420,6 +421,16 @@ func (m *Machine) check(extra *term.Term, timeoutMs int) solver.Result {
 	if m.mutateSearch(extra) {
 		m.Stats.FeasByModel++
 		return solver.Sat
+	}
+	if res, mod := m.truthTable(extra, 10); res != solver.Unknown {
+		m.Stats.FeasByModel++
+		if res == solver.Sat {
+			m.models = append(m.models, &poolModel{m: mod})
+			if len(m.models) > 32 {
+				m.models = m.models[1:]
+			}
+		}
+		return res
 	}
 	m.Stats.FeasQueries++
 	needFP := extra.FP
@@ -883,7 +894,16 @@ func (m *Machine) obligation(kind, msg, where string, bad *term.Term) bool {
 	}
 	var r solver.Result
 	var model func(*term.Term) uint64
-	if !m.FreshFirst {
+	// cheap exact decision first: at most 12 free input bits in the whole query
+	if res, mod := m.truthTable(bad, 12); res != solver.Unknown {
+		m.Stats.ByTruthTable++
+		if res == solver.Unsat {
+			m.Stats.SolverUnsat++
+			return true
+		}
+		r, model = res, mod.Eval
+	}
+	if r == solver.Unknown && !m.FreshFirst {
 		r = m.check(bad, m.FeasTimeoutMs)
 		if r == solver.Sat {
 			for i := len(m.models) - 1; i >= 0; i-- {
@@ -916,6 +936,17 @@ func (m *Machine) obligation(kind, msg, where string, bad *term.Term) bool {
 			model = mod.Eval
 		}
 	}
+	if r == solver.Unknown {
+		// few free input bits: decide the encoded formula by its truth table (complete for the
+		// SMT term the solvers could not finish; counted separately in the evidence)
+		if res, mod := m.truthTable(bad, 16); res != solver.Unknown {
+			r = res
+			m.Stats.ByTruthTable++
+			if mod != nil {
+				model = mod.Eval
+			}
+		}
+	}
 	switch r {
 	case solver.Unsat:
 		m.Stats.SolverUnsat++
@@ -930,6 +961,55 @@ func (m *Machine) obligation(kind, msg, where string, bad *term.Term) bool {
 		m.incomplete(fmt.Sprintf("inconclusive %s: %s at %s", kind, msg, where))
 		return false
 	}
+}
+
+// truthTable decides pc ∧ bad by enumerating every assignment of the variables it mentions, when
+// they total at most maxBits bits.
+func (m *Machine) truthTable(bad *term.Term, maxBits int) (solver.Result, *term.Model) {
+	roots := append(append([]*term.Term{}, m.pc...), bad)
+	comp := term.Compile(roots...)
+	bitsTotal := 0
+	for _, v := range comp.Vars {
+		switch v.Sort.K {
+		case term.KBool:
+			bitsTotal++
+		case term.KBV:
+			bitsTotal += v.Sort.W
+		default:
+			return solver.Unknown, nil
+		}
+	}
+	if bitsTotal > maxBits || uint64(comp.Size())<<uint(bitsTotal) > 400_000_000 {
+		return solver.Unknown, nil
+	}
+	assign := map[int]uint64{}
+	for n := uint64(0); n < uint64(1)<<uint(bitsTotal); n++ {
+		x := n
+		for _, v := range comp.Vars {
+			w := uint(1)
+			if v.Sort.K == term.KBV {
+				w = uint(v.Sort.W)
+			}
+			assign[v.ID] = x & (uint64(1)<<w - 1)
+			x >>= w
+		}
+		get := comp.Run(assign)
+		ok := true
+		for _, r := range roots {
+			if get(r) == 0 {
+				ok = false
+				break
+			}
+		}
+		if ok {
+			mod := term.NewModel()
+			for _, v := range comp.Vars {
+				mod.Set(v, assign[v.ID])
+			}
+			return solver.Sat, mod
+		}
+	}
+	return solver.Unsat, nil
 }
 
 func (m *Machine) solveFresh(bad *term.Term) solver.FreshResult {
